@@ -6,6 +6,7 @@ import (
 	"runtime/debug"
 	"sort"
 	"strings"
+	"sync"
 	"time"
 
 	"golang.org/x/tools/go/ssa"
@@ -18,9 +19,9 @@ type workItem struct {
 
 type Stats struct {
 	Paths, Completed, Infeasible, Unsupported, UnwindExceeded, BudgetCut, BoundCut, Asserted, Panicked, EngineErrors int
-	Obligations, Discharged, Inconclusive                                                                        int
-	FeasQueries, AssertQueries, UnknownBranches                                                                  int
-	Steps                                                                                                        int
+	Obligations, Discharged, Inconclusive                                                                            int
+	FeasQueries, AssertQueries, UnknownBranches, SyntacticPrunes                                                     int
+	Steps                                                                                                            int
 }
 
 // KnownFinding describes an already triaged defect.
@@ -39,18 +40,18 @@ type region struct {
 }
 
 type Violation struct {
-	Harness   string            `json:"harness"`
-	Key       string            `json:"key"`
-	Msg       string            `json:"msg"`
-	Inputs    map[string]string `json:"inputs"`
-	Order     []string          `json:"order"`
-	Decisions []int             `json:"decisions"`
-	Count     int               `json:"count"`
-	PanicMsg  string            `json:"panic_msg,omitempty"`
-	PkgDir     string           `json:"pkg_dir,omitempty"`
-	ReplayFile string           `json:"replay_file,omitempty"`
-	ReplayNote string           `json:"replay_note,omitempty"`
-	Tier       int              `json:"tier"`
+	Harness    string            `json:"harness"`
+	Key        string            `json:"key"`
+	Msg        string            `json:"msg"`
+	Inputs     map[string]string `json:"inputs"`
+	Order      []string          `json:"order"`
+	Decisions  []int             `json:"decisions"`
+	Count      int               `json:"count"`
+	PanicMsg   string            `json:"panic_msg,omitempty"`
+	PkgDir     string            `json:"pkg_dir,omitempty"`
+	ReplayFile string            `json:"replay_file,omitempty"`
+	ReplayNote string            `json:"replay_note,omitempty"`
+	Tier       int               `json:"tier"`
 }
 
 type ObligationSample struct {
@@ -101,23 +102,48 @@ type Explorer struct {
 	Tier         int
 	Seed         int64
 
-	work     []workItem
-	curModel Model
-	stat     Stats
-	res      *HarnessResult
-	harness  string
+	Workers   int
+	NewSolver func() *Solver
+
+	mu      sync.Mutex
+	work    []workItem
+	active  int
+	paths   int
+	stopped bool
+	res     *HarnessResult
+	harness string
 }
 
 func (ex *Explorer) push(prefix []int, m Model) {
+	ex.mu.Lock()
 	ex.work = append(ex.work, workItem{prefix, m})
+	ex.mu.Unlock()
 }
 
-func (ex *Explorer) noteModel(name string)      { ex.res.Models[name] = true }
-func (ex *Explorer) noteAssumption(s string)    { ex.res.Assumptions[s] = true }
-func (ex *Explorer) noteInconclusive(s string)  { ex.res.Inconclusive = append(ex.res.Inconclusive, s) }
-func (ex *Explorer) noteRecovered(p *goPanic)   { ex.res.Recovered[p.Kind+"@"+p.Site]++ }
+func (ex *Explorer) noteModel(name string) {
+	ex.mu.Lock()
+	ex.res.Models[name] = true
+	ex.mu.Unlock()
+}
+func (ex *Explorer) noteAssumption(s string) {
+	ex.mu.Lock()
+	ex.res.Assumptions[s] = true
+	ex.mu.Unlock()
+}
+func (ex *Explorer) noteInconclusive(s string) {
+	ex.mu.Lock()
+	ex.res.Inconclusive = append(ex.res.Inconclusive, s)
+	ex.mu.Unlock()
+}
+func (ex *Explorer) noteRecovered(p *goPanic) {
+	ex.mu.Lock()
+	ex.res.Recovered[p.Kind+"@"+p.Site]++
+	ex.mu.Unlock()
+}
 
 func (ex *Explorer) noteObligation(c *Ctx, msg, verdict string) {
+	ex.mu.Lock()
+	defer ex.mu.Unlock()
 	key := fmt.Sprint(c.trace) + "|" + msg
 	if !ex.res.Distinct[key] {
 		ex.res.Distinct[key] = true
@@ -221,6 +247,8 @@ func (ex *Explorer) inputsOf(c *Ctx, m Model) (map[string]string, []string) {
 }
 
 func (ex *Explorer) noteViolation(c *Ctx, key, msg string, m Model) {
+	ex.mu.Lock()
+	defer ex.mu.Unlock()
 	for _, v := range ex.res.Violations {
 		if v.Key == key {
 			v.Count++
@@ -233,6 +261,8 @@ func (ex *Explorer) noteViolation(c *Ctx, key, msg string, m Model) {
 }
 
 func (ex *Explorer) noteKnown(kf *KnownFinding, c *Ctx, m Model) {
+	ex.mu.Lock()
+	defer ex.mu.Unlock()
 	id := kf.Key + "|" + kf.Region
 	if _, ok := ex.res.Known[id]; ok {
 		ex.res.Known[id].Count++
@@ -242,95 +272,185 @@ func (ex *Explorer) noteKnown(kf *KnownFinding, c *Ctx, m Model) {
 	ex.res.Known[id] = &Violation{Harness: ex.harness, Key: kf.Key, Msg: kf.What, Inputs: in, Order: order, Decisions: append([]int{}, c.trace...), Count: 1, Tier: ex.Tier}
 }
 
-func (ex *Explorer) newCtx(item workItem) *Ctx {
+func (ex *Explorer) newCtx(item workItem, solver *Solver, st *Stats) *Ctx {
 	return &Ctx{
-		Prog: ex.Prog, Ex: ex, IntMode: ex.IntMode, BigW: ex.BigW,
+		Prog: ex.Prog, Ex: ex, IntMode: ex.IntMode, BigW: ex.BigW, S: solver, st: st, itemModel: item.model,
 		prefix:  item.prefix,
 		globals: map[*ssa.Global]*Cell{}, initing: map[*ssa.Global]bool{}, initFr: map[*ssa.Package]*frame{},
-		inputs: map[string]*Term{}, choices: map[string]int{}, reached: map[string]bool{}, funcs: ex.res.Funcs,
+		inputs: map[string]*Term{}, choices: map[string]int{}, reached: map[string]bool{}, funcs: map[string]bool{},
 		onceDone: map[*Cell]bool{}, bigInputs: map[string]bool{},
 		model: Model{},
 	}
 }
 
-// Run explores all paths of the harness function.
+// Run explores all paths of the harness function with ex.Workers workers.
 func (ex *Explorer) Run(fn *ssa.Function) *HarnessResult {
 	t0 := time.Now()
 	ex.harness = fn.Name()
 	ex.res = &HarnessResult{Name: fn.Name(), Known: map[string]*Violation{}, Unsupported: map[string]int{}, Reached: map[string]bool{},
 		Funcs: map[string]bool{}, Models: map[string]bool{}, Assumptions: map[string]bool{}, Distinct: map[string]bool{}, Recovered: map[string]int{}, Aborts: map[string]int{}}
-	ex.stat = Stats{}
 	ex.work = nil
+	ex.paths = 0
+	ex.active = 0
+	ex.stopped = false
 	ex.push(nil, Model{})
-	complete := true
-	for len(ex.work) > 0 {
-		if ex.stat.Paths >= ex.MaxPaths {
-			complete = false
-			ex.noteInconclusive(fmt.Sprintf("path budget %d exhausted with %d prefixes pending", ex.MaxPaths, len(ex.work)))
-			break
-		}
-		if !ex.Deadline.IsZero() && time.Now().After(ex.Deadline) {
-			complete = false
-			ex.noteInconclusive(fmt.Sprintf("time budget exhausted with %d prefixes pending after %d paths", len(ex.work), ex.stat.Paths))
-			break
-		}
-		item := ex.work[len(ex.work)-1]
-		ex.work = ex.work[:len(ex.work)-1]
-		ex.curModel = item.model
-		c := ex.newCtx(item)
-		if len(item.prefix) == 0 {
-			c.model = Model{}
-		} else {
-			c.model = nil
-		}
-		ex.stat.Paths++
-		ex.runPath(c, fn)
-		ex.stat.Steps += c.steps
-		for k := range c.reached {
-			ex.res.Reached[k] = true
-		}
+	n := ex.Workers
+	if n <= 0 {
+		n = 1
 	}
-	ex.res.Stats = ex.stat
-	ex.res.Complete = complete && ex.stat.Unsupported == 0 && ex.stat.UnwindExceeded == 0 && ex.stat.BudgetCut == 0 && ex.stat.EngineErrors == 0
+	complete := true
+	var total Stats
+	var wg sync.WaitGroup
+	for w := 0; w < n; w++ {
+		wg.Add(1)
+		go func() {
+			defer wg.Done()
+			solver := ex.NewSolver()
+			defer solver.Close()
+			var st Stats
+			for {
+				ex.mu.Lock()
+				if ex.stopped {
+					ex.mu.Unlock()
+					break
+				}
+				if len(ex.work) == 0 {
+					if ex.active == 0 {
+						ex.mu.Unlock()
+						break
+					}
+					ex.mu.Unlock()
+					time.Sleep(2 * time.Millisecond)
+					continue
+				}
+				if ex.paths >= ex.MaxPaths {
+					ex.stopped = true
+					complete = false
+					ex.res.Inconclusive = append(ex.res.Inconclusive, fmt.Sprintf("path budget %d exhausted with %d prefixes pending", ex.MaxPaths, len(ex.work)))
+					ex.mu.Unlock()
+					break
+				}
+				if !ex.Deadline.IsZero() && time.Now().After(ex.Deadline) {
+					ex.stopped = true
+					complete = false
+					ex.res.Inconclusive = append(ex.res.Inconclusive, fmt.Sprintf("time budget exhausted with %d prefixes pending after %d paths", len(ex.work), ex.paths))
+					ex.mu.Unlock()
+					break
+				}
+				item := ex.work[len(ex.work)-1]
+				ex.work = ex.work[:len(ex.work)-1]
+				ex.active++
+				ex.paths++
+				ex.mu.Unlock()
+				c := ex.newCtx(item, solver, &st)
+				if len(item.prefix) == 0 {
+					c.model = Model{}
+				} else {
+					c.model = nil
+				}
+				st.Paths++
+				ex.runPath(c, fn)
+				st.Steps += c.steps
+				ex.mu.Lock()
+				for k := range c.reached {
+					ex.res.Reached[k] = true
+				}
+				for k := range c.funcs {
+					ex.res.Funcs[k] = true
+				}
+				ex.active--
+				ex.mu.Unlock()
+			}
+			ex.mu.Lock()
+			total.add(&st)
+			ex.res.SolverStats.add(&solver.Stats)
+			ex.res.Disagree = append(ex.res.Disagree, solver.Disagree...)
+			ex.mu.Unlock()
+		}()
+	}
+	wg.Wait()
+	ex.res.Stats = total
+	ex.res.Complete = complete && total.Unsupported == 0 && total.UnwindExceeded == 0 && total.BudgetCut == 0 && total.EngineErrors == 0
 	ex.res.Wall = time.Since(t0)
 	return ex.res
+}
+
+func (a *Stats) add(b *Stats) {
+	a.Paths += b.Paths
+	a.Completed += b.Completed
+	a.Infeasible += b.Infeasible
+	a.Unsupported += b.Unsupported
+	a.UnwindExceeded += b.UnwindExceeded
+	a.BudgetCut += b.BudgetCut
+	a.BoundCut += b.BoundCut
+	a.Asserted += b.Asserted
+	a.Panicked += b.Panicked
+	a.EngineErrors += b.EngineErrors
+	a.Obligations += b.Obligations
+	a.Discharged += b.Discharged
+	a.Inconclusive += b.Inconclusive
+	a.FeasQueries += b.FeasQueries
+	a.AssertQueries += b.AssertQueries
+	a.UnknownBranches += b.UnknownBranches
+	a.SyntacticPrunes += b.SyntacticPrunes
+	a.Steps += b.Steps
+}
+
+func (a *SolverStats) add(b *SolverStats) {
+	a.Queries += b.Queries
+	a.Unsat += b.Unsat
+	a.Sat += b.Sat
+	a.Unknown += b.Unknown
+	a.CacheHits += b.CacheHits
+	a.Errors += b.Errors
+	a.Time += b.Time
+	if a.BySolver == nil {
+		a.BySolver = map[string]int{}
+	}
+	for k, v := range b.BySolver {
+		a.BySolver[k] += v
+	}
 }
 
 func (ex *Explorer) runPath(c *Ctx, fn *ssa.Function) {
 	defer func() {
 		r := recover()
 		if r == nil {
-			ex.stat.Completed++
+			c.st.Completed++
 			return
 		}
+		if gp, ok := r.(*goPanic); ok {
+			c.st.Panicked++
+			ex.handlePanic(c, gp)
+			return
+		}
+		ex.mu.Lock()
+		defer ex.mu.Unlock()
 		switch p := r.(type) {
 		case *pathAbort:
 			ex.res.Aborts[p.Kind]++
 			switch p.Kind {
 			case "infeasible":
-				ex.stat.Infeasible++
+				c.st.Infeasible++
 			case "unsupported":
-				ex.stat.Unsupported++
+				c.st.Unsupported++
 				ex.res.Unsupported[p.Msg]++
 			case "unwind":
-				ex.stat.UnwindExceeded++
+				c.st.UnwindExceeded++
 				ex.res.Unsupported["unwind: "+p.Msg]++
 			case "budget", "deadlock":
-				ex.stat.BudgetCut++
+				c.st.BudgetCut++
 				ex.res.Unsupported[p.Kind+": "+p.Msg]++
 			case "bound":
-				ex.stat.BoundCut++
+				c.st.BoundCut++
 				ex.res.Assumptions["outside model/bound: "+p.Msg] = true
 			case "asserted":
-				ex.stat.Asserted++
+				c.st.Asserted++
 			case "exit":
-				ex.stat.Completed++
+				c.st.Completed++
 			}
-		case *goPanic:
-			ex.stat.Panicked++
-			ex.handlePanic(c, p)
 		default:
-			ex.stat.EngineErrors++
+			c.st.EngineErrors++
 			msg := fmt.Sprintf("engine error: %v", r)
 			st := string(debug.Stack())
 			if ex.Verbose {
@@ -363,23 +483,22 @@ func (ex *Explorer) runPath(c *Ctx, fn *ssa.Function) {
 // implicit "no panic" obligation unless it lies inside a known region.
 func (ex *Explorer) handlePanic(c *Ctx, p *goPanic) {
 	key := "panic:" + p.Kind + "@" + p.Site
-	ex.stat.Obligations++
+	c.st.Obligations++
 	regions := ex.regionsFor(c, key)
 	ex.noteObligation(c, key, "sat")
 	if len(regions) == 0 {
 		m := c.model
 		if m == nil {
-			_, m, _ = ex.Solver.Check(c.pc, true)
+			_, m, _ = c.S.Check(c.pc, true)
 		}
 		ex.noteViolation(c, key, "Go panic: "+p.Msg, m)
-		ex.res.Violations[len(ex.res.Violations)-1].PanicMsg = p.Msg
 		return
 	}
 	q := append([]*Term{}, c.pc...)
 	for _, r := range regions {
 		q = append(q, Not(r.term))
 	}
-	res, m, _ := ex.Solver.Check(q, true)
+	res, m, _ := c.S.Check(q, true)
 	if res == Sat {
 		ex.noteViolation(c, key, "Go panic: "+p.Msg, m)
 		return
@@ -389,7 +508,7 @@ func (ex *Explorer) handlePanic(c *Ctx, p *goPanic) {
 	}
 	for _, r := range regions {
 		q2 := append(append([]*Term{}, c.pc...), r.term)
-		r2, m2, _ := ex.Solver.Check(q2, true)
+		r2, m2, _ := c.S.Check(q2, true)
 		if r2 == Sat {
 			ex.noteKnown(r.kf, c, m2)
 		}
